@@ -154,6 +154,25 @@ PROPS["C16"] = dict(
     floor=dict(quick=800, thorough=8000),
 )
 
+PROPS["C17"] = dict(
+    level="exploration",
+    technique="rapidcheck stateful testing of the LRU cache against an explicit model with a full non-destructive scan after every command; exhaustive enumeration of all short histories for capacities 0..4; rapidcheck over connection histories with resumption judged by a reference predicate and the wire",
+    rule=("part A: history of save(fresh id) / load(saved, evicted, forgotten, one-bit-different or unknown id) / forget(id) on a cache with generated "
+          "storage size (0..99, k*100, k*100+-1, k <= 64), base alignment and index-key entropy; after every command the observable result and a "
+          "scan of the whole id universe on a copy are compared with an MRU-list model; canaries around the store. part B: 2..8 connections of two "
+          "client contexts to a server with a cache of capacity 1..3 (plain resume, client/server dropped the suite, client/server lowered the "
+          "version, after forget, another server, flipped / truncated id). non-trivial (A) = history with an eviction after a load-refresh or a "
+          "forget; (B) = >= 1 resumption attempt; distinct = hash of the history"),
+    assumptions=["ids passed to save() are fresh (interface contract: randomly generated session IDs); a second save under a live id is not generated",
+                 "when the remembered version is acceptable but is not the version a new negotiation would pick, either outcome is accepted ('abbreviated only when')"],
+    targets=[dict(name="c17_cache", src="c17_cache.cpp", flavour="san", libs=SSL_LIBS, noseed=True)],
+    quick=[("c17_cache", "enum", dict(shards=16)),
+           ("c17_cache", "rc", dict(cases=6400, shards=16))],
+    thorough=[("c17_cache", "enum", dict(shards=16)),
+              ("c17_cache", "rc", dict(cases=200000, shards=16))],
+    floor=dict(quick=2000, thorough=20000),
+)
+
 # ---------------------------------------------------------------- manifest text
 HOOK_COMMITS = ["b37444c", "e1637c5"]
 NOT_APPLICABLE = {}
@@ -226,4 +245,14 @@ MANIFEST_TEXT["C16"] = dict(
           "implementation of the extension."),
     design_ref="DESIGN.md section 4, C16",
     note="reference fragment-length function written from the header documentation; trusts OpenSSL for interop and the EVP primitives for crafted records",
+)
+
+MANIFEST_TEXT["C17"] = dict(
+    text=("Model-based stateful testing of br_ssl_session_cache_lru: every command's result and the complete cache content (scanned on a copy so "
+          "the scan does not disturb recency) are compared with an explicit LRU model after each step, so a corrupted link is found at the command "
+          "that caused it; all histories up to depth 6 (quick) / 8 (thorough) over 5 ids for capacities 0..4 are enumerated. Resumption histories "
+          "are judged by a reference predicate (cache model x suite lists x version ranges) and by the wire (no Certificate message, traffic "
+          "decrypting under keys derived from the new randoms)."),
+    design_ref="DESIGN.md section 4, C17",
+    note="exhaustive only to the stated depth and id-universe size; larger capacities are sampled by random histories",
 )
